@@ -63,6 +63,7 @@ func LoadWorld(repo string, overlay map[string][]byte, tags string) (*World, err
 		return nil, fmt.Errorf("GOWORK must be unset or off")
 	}
 	var note *NormaliseNote
+	origOverlay := overlay
 	if !skipNormalise {
 		overlay, note = normaliseHelpers(repo, overlay, tags)
 	}
@@ -102,6 +103,16 @@ func LoadWorld(repo string, overlay map[string][]byte, tags string) (*World, err
 			terrs = append(terrs, fmt.Sprintf("%s: %s", p.PkgPath, e))
 		}
 	})
+	if len(terrs) > 0 && note != nil && !skipNormalise {
+		// the normalised source does not load (a rewrite of ours went wrong): analyse the tree as written
+		skipNormalise = true
+		w0, err := LoadWorld(repo, origOverlay, tags)
+		skipNormalise = false
+		if w0 != nil {
+			w0.Normalised = &NormaliseNote{NewFuncs: note.NewFuncs, Kept: []string{"normalised source did not load; analysed as written"}}
+		}
+		return w0, err
+	}
 	if len(terrs) > 0 {
 		sort.Strings(terrs)
 		if len(terrs) > 8 {
